@@ -58,6 +58,8 @@ pub struct Pass0Context {
     pub included_files: Rc<Cell<usize>>,
     // lines of macro bodies read for expansion so far
     pub expanded_lines: Cell<usize>,
+    // bytes of those lines, arguments put in
+    pub expanded_bytes: Cell<usize>,
 }
 
 impl Pass0Context {
@@ -108,6 +110,7 @@ pub fn build_pass_0(
         expansions: Cell::new(0),
         included_files: Rc::new(Cell::new(0)),
         expanded_lines: Cell::new(0),
+        expanded_bytes: Cell::new(0),
     };
 
     // macro calls are expanded wherever they stand, in the data and eeprom segments too
@@ -136,6 +139,9 @@ const MAX_EXPANDED_LINES: usize = 1 << 22;
 
 /// Longest line a macro body may become when its arguments are put in: an argument handed on twice doubles with every level
 const MAX_EXPANDED_LINE: usize = 1 << 16;
+
+/// Text all expansions of one build may amount to: many lines that each are long are more than either limit alone allows
+const MAX_EXPANDED_BYTES: usize = 1 << 26;
 
 /// Puts the arguments in: `@n` stands for the n-th one. One digit is looked at (`@1` was always replaced before `@10`
 /// could be), and the line is read once, however many arguments there are.
@@ -193,7 +199,15 @@ fn pass0_internal(
                         );
                     }
                     context.expansions.set(context.expansions.get() + 1);
-                    let body_lines = macroses.get(macro_name).map_or(0, |body| body.len());
+                    // blank lines and lines that are a comment from their start cost next to nothing: they are free
+                    let body_lines = macroses.get(macro_name).map_or(0, |body| {
+                        body.iter()
+                            .filter(|(_, text)| {
+                                let text = text.trim_start();
+                                !(text.is_empty() || text.starts_with(';') || text.starts_with("//"))
+                            })
+                            .count()
+                    });
                     match context.expanded_lines.get().checked_add(body_lines) {
                         Some(lines) if lines <= MAX_EXPANDED_LINES => {
                             context.expanded_lines.set(lines)
@@ -239,6 +253,21 @@ fn pass0_internal(
     Ok(())
 }
 
+/// Counts the text of one expanded line against the budget of the build
+fn count_expanded_text(context: &Pass0Context, bytes: usize, line: &CodePoint) -> Result<(), Error> {
+    match context.expanded_bytes.get().checked_add(bytes) {
+        Some(total) if total <= MAX_EXPANDED_BYTES => {
+            context.expanded_bytes.set(total);
+            Ok(())
+        }
+        _ => bail!(
+            "macro calls expand to too much text (more than {} bytes), {}",
+            MAX_EXPANDED_BYTES,
+            line
+        ),
+    }
+}
+
 fn macro_expand(
     line: &CodePoint,
     macro_name: &String,
@@ -258,10 +287,15 @@ fn macro_expand(
             let arguments: Vec<String> = ops.iter().map(|x| x.to_string()).collect();
             let mut processed = vec![];
             for (cp, raw_line) in macro_body {
-                processed.push((cp.clone(), substitute(raw_line, &arguments, line)?));
+                let text = substitute(raw_line, &arguments, line)?;
+                count_expanded_text(context, text.len(), line)?;
+                processed.push((cp.clone(), text));
             }
             processed
         } else {
+            for (_, raw_line) in macro_body {
+                count_expanded_text(context, raw_line.len(), line)?;
+            }
             macro_body.clone()
         };
         let mut iter = macro_body.iter().map(|x| (x.0.line_num, x.1.as_str()));
